@@ -378,6 +378,7 @@ BUILTINS = {
     'back_inserter': Builtin('back_inserter', lambda s, c: ('bound', BUILTINS['push_back'], [c, Placeholder()])), 'bind': Builtin('bind', _bind),
     'Vector': Builtin('Vector', lambda s: Vec([])), 'eq': Builtin('eq', lambda s, a, b: s.binop('==', a, b)), 'call_exists': Builtin('call_exists', lambda s, f, *a: (isinstance(a[0], Vec) if (isinstance(f, Builtin) and f.name == 'range_internal') else True)),      # range_internal (the C++ range constructor) exists for containers only
     'range_internal': Builtin('range_internal', lambda s, c: s.b_range(c)),
+    'to_string': Builtin('to_string', lambda s, v: (v if (isinstance(v, Vec) and v.kind == 'string') else (_ for _ in ()).throw(PathAbort('to_string of a non-string (runtime type dispatch: outside presym)')))),
     'size_t': Builtin('size_t', lambda s, x: x), 'is_type': Builtin('is_type', lambda s, x, t: isinstance(x, Vec) and x.kind == 'string'),
 }
 
@@ -479,6 +480,15 @@ def obligations(K):
     obs.append(dict(fn='min', desc='smaller of two integers', L=0, args=lambda: [x, y], spec=lambda: [(z3.BoolVal(True), z3.If(x < y, x, y))], logspec=None, input_vec=[]))
     obs.append(dict(fn='odd', desc='true exactly for odd integers, negative ones included', L=0, args=lambda: [x], spec=lambda: [(z3.BoolVal(True), x % 2 == 1)], logspec=None, input_vec=[]))
     obs.append(dict(fn='even', desc='true exactly for even integers', L=0, args=lambda: [x], spec=lambda: [(z3.BoolVal(True), x % 2 == 0)], logspec=None, input_vec=[]))
+    if True:
+        dl = [z3.Int('dl0')]                       # a one-character delimiter
+        for L in range(min(K, 3) + 1):
+            for lens in itertools.product([0, 1], repeat=L):
+                elems = [[z3.Int('js%d_%d' % (i, j)) for j in range(n)] for i, n in enumerate(lens)]
+                exp = []
+                for i, e in enumerate(elems): exp = exp + (dl if i else []) + e
+                obs.append(dict(fn='join', desc='elements separated by the delimiter - also around EMPTY strings, element lengths %s' % (list(lens),), L=L,
+                                args=(lambda elems=elems: [Vec([Vec(list(e), 'string') for e in elems]), Vec(list(dl), 'string')]), spec=(lambda exp=exp: [(z3.BoolVal(True), list(exp))]), logspec=None, input_vec=[]))
     for span in range(-1, K):
         obs.append(dict(fn='generate_range', desc='[x .. y] inclusive, y - x = %d' % span, L=0, pre=(y == x + span), args=lambda: [x, y],
                         spec=(lambda span=span: [(z3.BoolVal(True), [x + i for i in range(span + 1)])]), logspec=None, input_vec=[]))
